@@ -134,16 +134,18 @@ class FoldMixin:
             if r is None or expr_key(r) != xk:
                 self.notes.append("loop %s not summarised: reason 10" % s.get("loop", 0))
                 return NotImplemented
-        # the source must not share storage with the accumulator
+        # the source must not share storage with the accumulator: by element type, or by a proved obligation
         u = xt.under()
+        need_disjoint = False
         if u.k == "slice" and not xt.is_string():
             skey = self.mem_key(xt.elem(), 0, leaves(xt.elem())[0][1])
             akey = self.mem_key(at.elem(), 0, leaves(at.elem())[0][1])
-            if skey == akey:
-                self.notes.append("loop %s not summarised: reason 11" % s.get("loop", 0))
-                return NotImplemented
+            need_disjoint = skey == akey
         fr = self.frames[-1]
         a0 = self.ev(X, st)
+        if need_disjoint and isinstance(a0, SliceV) and isinstance(xv, SliceV) and a0.lv is None and xv.lv is None:
+            self.oblige(st, "frame", "loop%d-source-disjoint" % s.get("loop", 0), z3.Or(xv.rid != a0.rid, n == idx(0)), s.get("ln"),
+                        "the ranged-over slice does not share its array with the accumulator it is appended to")
         if not isinstance(a0, SliceV) or a0.lv is not None:
             self.notes.append("loop %s not summarised: reason 12" % s.get("loop", 0))
             return NotImplemented
@@ -260,7 +262,7 @@ class FoldMixin:
             facts.append(z3.ForAll([kq, jq], z3.Implies(z3.And(kq >= 0, kq < n, jq >= 0, jq < idx(w)),
                                                       z3.And(through, z3.Select(FA, res.off + a0.ln + idx(w) * kq + jq) == chain))))
         facts.append(z3.ForAll([kq], z3.Implies(z3.And(kq >= 0, kq < n), through)))
-        self.frame_region_write(st.fork(zand(st.pc, n != idx(0))), a0.rid, win_lo)
+        self.frame_region_write(st.fork(zand(st.pc, n != idx(0), a0.cap > a0.ln)), a0.rid, win_lo)
         for f in facts:
             self.assume(st, f)
         M1 = z3.Store(M, a0.rid, H0)
